@@ -8,6 +8,7 @@ import (
 	"bytes"
 	"context"
 	"fmt"
+	"io"
 	"os"
 	"regexp"
 	"sort"
@@ -68,6 +69,10 @@ type eCase struct {
 	//   pflush  persisted mode uses a persister WithFlush()
 	//   shared  persisted mode with res=db/dbfs keeps the session in the store that also holds the application
 	//   static  with res=db/dbfs, handler symbols that only return fixed content are stored under STATICLOAD
+	//   loop    persisted mode: every request is served through engine.Loop (with no further input on its reader) instead of
+	//           Exec / Flush / Finish called by the harness
+	//   memcap  long-lived mode: the cache capacity is set on the cache object given to the engine (WithMemory) only; the
+	//           configuration's CacheSize stays 0 and must not override it
 	//   shadow  long-lived mode: the resource hands out the bytecode slices themselves (with spare capacity, as a
 	//           bytes.Buffer gives), and before every request a second, independent session of the same application is
 	//           served from the same resource data: it repeats the history so far and then takes another branch.
@@ -843,12 +848,82 @@ func oneRequest(en *engine.DefaultEngine, input []byte, rec *reqRec) {
 	}()
 }
 
+// recEngine hands an engine to engine.Loop and records what Loop does with it.
+type recEngine struct {
+	en       *engine.DefaultEngine
+	rec      *reqRec
+	finished bool
+}
+
+func (r *recEngine) Exec(ctx context.Context, in []byte) (bool, error) {
+	cont, err := r.en.Exec(ctx, in)
+	r.rec.cont = cont
+	if err != nil {
+		r.rec.x = "err"
+	} else {
+		r.rec.x = "ok"
+	}
+	return cont, err
+}
+
+func (r *recEngine) Flush(ctx context.Context, w io.Writer) (int, error) {
+	b := bytes.NewBuffer(nil)
+	n, err := r.en.Flush(ctx, b)
+	if err != nil {
+		r.rec.f = "err"
+		r.rec.out = nil
+	} else {
+		r.rec.f = "ok"
+		r.rec.out = b.Bytes()
+		w.Write(b.Bytes())
+	}
+	return n, err
+}
+
+func (r *recEngine) Finish(ctx context.Context) error {
+	r.finished = true
+	err := r.en.Finish(ctx)
+	if err != nil {
+		r.rec.fin = "err"
+	}
+	return err
+}
+
+// loopRequest serves one request through engine.Loop with an exhausted reader: Exec, Flush, Finish as Loop makes them.
+func loopRequest(en *engine.DefaultEngine, input []byte, rec *reqRec) {
+	rec.f = "-"
+	rec.fin = "ok"
+	re := &recEngine{en: en, rec: rec}
+	func() {
+		defer func() {
+			if p := recover(); p != nil {
+				rec.panicV = p
+				switch {
+				case rec.x == "":
+					rec.x, rec.cont = "panic", false
+				case rec.f == "-" && !re.finished:
+					rec.f = "panic"
+				default:
+					rec.fin = "panic"
+				}
+			}
+		}()
+		engine.Loop(context.Background(), re, strings.NewReader(""), io.Discard, input)
+	}()
+	if rec.x == "panic" {
+		rec.cont = false
+	}
+}
+
 // runCase executes the history in the case's mode (or the given override).
 func (c *eCase) run(mode string) []reqRec {
 	var recs []reqRec
 	ncalls := 0
 	cfg := c.config()
 	if mode == "long" {
+		if c.opt("memcap") {
+			cfg.CacheSize = 0
+		}
 		rs := &recRes{c: c, ncalls: &ncalls}
 		shadow := c.opt("shadow") && c.res == ""
 		if shadow {
@@ -966,19 +1041,23 @@ func (c *eCase) runPers(store db.Db, inputs [][]byte, ncallsp *int, before func(
 			en = en.WithFirst(f)
 		}
 		rec := reqRec{}
-		oneRequest(en, in, &rec)
-		rec.fin = "ok"
-		func() {
-			defer func() {
-				if p := recover(); p != nil {
-					rec.fin = "panic"
-					rec.panicV = p
+		if c.opt("loop") {
+			loopRequest(en, in, &rec)
+		} else {
+			oneRequest(en, in, &rec)
+			rec.fin = "ok"
+			func() {
+				defer func() {
+					if p := recover(); p != nil {
+						rec.fin = "panic"
+						rec.panicV = p
+					}
+				}()
+				if err := en.Finish(ctx); err != nil {
+					rec.fin = "err"
 				}
 			}()
-			if err := en.Finish(ctx); err != nil {
-				rec.fin = "err"
-			}
-		}()
+		}
 		// what is observable after the request is what the store now holds for the session
 		pe2 := persist.NewPersister(store).WithContent(state.NewState(uint32(c.flags)), cache.NewCache())
 		if err := pe2.Load(cfg.SessionId); err == nil {
